@@ -20,6 +20,7 @@ import yaml
 import yatiml
 from vlib import docs as D
 from vlib import harness as H
+from vlib import models as M
 from vlib import nodes as N
 from vlib import refsem as R
 from vlib import scalars as S
@@ -150,6 +151,12 @@ def gen_hierarchy(rng):
                                         if 'default' not in p] + \
                 [['attr_value', 'kind', name]]
             c['savorize'] = [['remove_attr', 'kind']]
+            if rng.random() < 0.4:
+                # a number as discriminator (compared by value, whatever
+                # its spelling): 8 and up, so that the octal, hexadecimal
+                # and decimal spellings all differ
+                c['disc_int'] = 8 + len(classes)
+                c['recognize'][-1] = ['attr_value', 'kind', c['disc_int']]
         return c
     for _ in range(rng.choice([1, 1, 2])):
         roots.append(make(None, 1))
@@ -284,7 +291,8 @@ def class_doc(m, cname, rng, with_optional, depth=0):
         pairs.append([N.s_str(p['name']),
                       value_node(m, p['type'], rng, depth)])
     if c.get('recognize'):
-        pairs.append([N.s_str('kind'), N.s_str(cname)])
+        pairs.append([N.s_str('kind'), N.s_int(c['disc_int'])
+                      if c.get('disc_int') is not None else N.s_str(cname)])
     return ['map', pairs, S.TAG_MAP]
 
 
@@ -504,6 +512,8 @@ def seeds_for(spec, rng):
 def shard(ctx):
     rng = ctx.rng
     from vlib import modelgen as G
+    for _ in range(ctx.budget(300, 4000)):
+        push_down_family(ctx, rng)
     n = ctx.budget(2600, 32000)
     for i in range(n):
         if rng.random() < 0.8:
@@ -537,6 +547,14 @@ def shard(ctx):
         seeds = seeds_for(spec, rng)
         for d in docs:
             judge(ctx, spec, d, rng.choice(['block', 'flow', 'json']), seeds)
+            if rng.random() < 0.3:
+                # the same numbers in other spellings (discriminating
+                # recognisers compare values, not texts)
+                r2 = D.respell_ints(d, rng)
+                if r2 is not None:
+                    ctx.count('documents_with_respelled_ints')
+                    judge(ctx, spec, r2, rng.choice(['block', 'flow']),
+                          seeds)
             if rng.random() < 0.25:
                 # one scalar node at two positions (anchor and alias)
                 a2 = D.alias_two_scalars(d, rng)
@@ -544,6 +562,66 @@ def shard(ctx):
                     ctx.count('documents_with_aliased_scalar')
                     judge(ctx, spec, a2, rng.choice(['block', 'flow']),
                           seeds)
+
+
+def push_down_family(ctx, rng):
+    """A savorizer of the owner changes which class its items are: the
+    owner hands its unit down into the item mappings in place, an item with
+    a unit is a UnitReading, one without a plain Reading.  What an item is
+    has to be decided on the node as the owner's savorizer left it."""
+    base_extra = rng.random() < 0.5
+    R = {'name': 'Reading', 'kind': 'plain',
+         'params': [{'name': 'value', 'type': 'int'}]}
+    if base_extra:
+        R['extra'] = True
+    U = {'name': 'UnitReading', 'kind': 'plain', 'bases': ['Reading'],
+         'params': [{'name': 'value', 'type': 'int'},
+                    {'name': 'unit', 'type': 'str'}]}
+    if base_extra:
+        U['extra'] = True
+    L = {'name': 'Log', 'kind': 'plain',
+         'params': [{'name': 'readings', 'type': ['list', ['cls', 'Reading']]},
+                    {'name': 'unit', 'type': 'str', 'default': 'm'}],
+         'savorize': [['push_down', 'readings', 'unit', 'unit',
+                       M.enc('m')]]}
+    P = {'name': 'PlainLog', 'kind': 'plain',
+         'params': [{'name': 'readings',
+                     'type': ['list', ['cls', 'Reading']]}]}
+    dt = rng.choice([['cls', 'Log'], ['list', ['cls', 'Log']],
+                     ['union', ['cls', 'Log'], ['cls', 'PlainLog']],
+                     ['dict', 'str', ['cls', 'Log']]])
+    spec = {'classes': [R, U, L, P], 'doc_type': dt, 'profile': 'push'}
+    try:
+        H.model_of(spec)
+    except Exception:
+        ctx.count('model_build_failed')
+        return
+    spec = H.clean_spec(spec)
+
+    def item(i):
+        pairs = [[N.s_str('value'), N.s_int(i)]]
+        r = rng.random()
+        if r < 0.3:
+            pairs.append([N.s_str('unit'), N.s_str(rng.choice(['s', 'kg']))])
+        elif r < 0.4:
+            pairs.append([N.s_str('unit'), N.s_int(3)])
+        elif r < 0.5:
+            pairs.append([N.s_str('other'), N.s_str('x')])
+        return ['map', pairs, 'tag:yaml.org,2002:map']
+    pairs = [[N.s_str('readings'), ['seq', [item(i) for i in range(
+        rng.randint(0, 3))], 'tag:yaml.org,2002:seq']]]
+    if rng.random() < 0.5:
+        pairs.append([N.s_str('unit'), N.s_str(rng.choice(['cm', 'K']))])
+    if rng.random() < 0.15:
+        pairs.append([N.s_str('zz'), N.s_int(1)])
+    node = ['map', pairs, 'tag:yaml.org,2002:map']
+    if dt[0] == 'list':
+        node = ['seq', [node, node], 'tag:yaml.org,2002:seq']
+    elif dt[0] == 'dict':
+        node = ['map', [[N.s_str('k'), node]], 'tag:yaml.org,2002:map']
+    ctx.count('push_down_family_documents')
+    judge(ctx, spec, node, rng.choice(['block', 'flow', 'json']),
+          seeds_for(spec, rng))
 
 
 def replay(ctx, case):
